@@ -239,6 +239,9 @@ func (g *G) randAtom(countOnly bool) Atom {
 		a.Arg = i64p(int64(g.n(4)))
 	case "in", "containsAll", "containsSome":
 		k := 1 + g.n(3)
+		if g.coin(0.08) {
+			k = 0 // the empty list: nothing is allowed / nothing is required
+		}
 		seen := map[string]bool{}
 		for i := 0; i < k; i++ {
 			var s string
